@@ -141,20 +141,30 @@ func VerifC19EditInPlace(s1, s2, s3, idx, t, swap int) {
 		return
 	}
 	want := append([][][]byte(nil), all...)
-	if swap != 0 {
-		j := (idx + 1) % len(all)
-		l.Labels[idx], l.Labels[j] = l.Labels[j], l.Labels[idx]
-		want[idx], want[j] = want[j], want[idx]
-	} else {
-		freshLabels, fresh := verifName(shapeLens(t))
-		l.Labels[idx] = fresh
-		want[idx] = freshLabels
+	edit := func() {
+		if swap != 0 {
+			j := (idx + 1) % len(all)
+			l.Labels[idx], l.Labels[j] = l.Labels[j], l.Labels[idx]
+			want[idx], want[j] = want[j], want[idx]
+		} else {
+			freshLabels, fresh := verifName(shapeLens(t))
+			l.Labels[idx] = fresh
+			want[idx] = freshLabels
+		}
 	}
+	edit()
 	out := l.ToBytes()
 	verifAssert(verifSame(out, refEncode(want)), "edited-names-are-encoded")
 	verifAssert(l.Length() == len(refEncode(want)), "length-of-edited-list")
+	// a second edit and encoding: the bytes handed out for the first one stay as they were
+	kept := append([]byte(nil), out...)
+	edit()
+	out2 := l.ToBytes()
+	verifAssert(verifSame(out2, refEncode(want)), "edited-names-are-encoded")
+	verifAssert(l.Length() == len(refEncode(want)), "length-of-edited-list")
+	verifAssert(verifSame(out, kept), "encoded-bytes-handed-out-earlier-stay-unchanged")
 	// the bytes handed out are the caller's: scribbling over them changes no later encoding
-	verifHavoc("scribble-out", out)
+	verifHavoc("scribble-out", out2)
 	verifAssert(verifSame(l.ToBytes(), refEncode(want)), "overwriting-the-encoded-bytes-changes-nothing")
 	verifReach("end")
 }
